@@ -15,7 +15,7 @@ class C01(pure.Spec):
                 "C01_bridge_is_relay", "C01_bridge_moves_are_pipe_moves"]
     crate = "app"
     binary = "vh-app"
-    design_ref = "DESIGN.md §4 C01"
+    design_ref = "DESIGN.md §5 C01"
     rule = ("the real client_main_inner and the real server run_listener on loopback, local clients and scripted targets "
             "driven by the harness: every entry point (TCP remote, Unix-socket remote, SOCKS5 CONNECT with IPv4 and domain "
             "names, SOCKS4, SOCKS4a, HTTP CONNECT) x six connection shapes (half-close by either side first with the "
